@@ -229,15 +229,84 @@ def _file_shard(t):
     return acc
 
 
+def _edge_shard(t):
+    """Items whose frame count differs from the block's, offered through every way of handing items over.
+    Refusing them is C16's subject; *if* one is accepted and written, the run table still has to stay inside
+    the block's frame range and decode - otherwise gaps do not survive storage."""
+    acc = core.Acc()
+    nfr = 4
+    ways = ["add"] + (list(specs.VIA) if t in (R.T_DATA3D, R.T_FORCE3D) else [])
+    for delta in (2, -1, -3):
+        m = nfr + delta
+        for mask in {tuple([True] * m), tuple([True, False] + [True] * (m - 2)) if m >= 3 else tuple([True] * m)}:
+            for way in ways:
+                for position in (0, 1):
+                    acc.n["states"] += 1
+                    acc.n["evaluations"] += 1
+                    acc.n["nontrivial"] += 1
+                    acc.n["transitions"] += 1
+                    good = gen.rle_block(t, nfr, [(True, False, True, True)], chans=[5])
+                    odd = gen.rle_block(t, m, [mask], labels=["odd"], chans=[1])
+                    sp_items = _items(good) + _items(odd) if position else _items(odd) + _items(good)
+                    wit = {"edge": [t, delta, list(mask), way, position]}
+                    desc = f"{R.NAMES[t]} block of {nfr} frames, item of {m} frames (mask {''.join('x' if p else '.' for p in mask)}) via {way}, position {position}"
+                    try:
+                        b = specs.build(gen.rle_block(t, nfr, []))
+                        libitems = []
+                        for it in sp_items:
+                            libitems.append(specs.build_item(t, it, good))
+                        if way == "add":
+                            for k, x in enumerate(libitems):
+                                if t == R.T_EMG:
+                                    b.addSignal(x, channel=k)
+                                elif t == R.T_PLATDATA:
+                                    b.add_platform(x, k)
+                                else:
+                                    b.add_track(x)
+                        else:
+                            specs._install(b, "tracks", libitems, way)
+                        data = specs.lib_encode(b)
+                    except Exception:  # noqa: BLE001
+                        acc.outcomes[f"{R.NAMES[t]}:edge:refused"] += 1
+                        acc.n["traces"] += 1
+                        continue
+                    try:
+                        ref, used, _ = R.decode_block(t, good["format"], data)
+                        bad = None
+                        if used != len(data):
+                            bad = f"{len(data) - used} stray bytes after the block"
+                        for i, rit in enumerate(_items(ref)):
+                            for s0, k in rit["segs"]:
+                                if k <= 0 or s0 < 0 or s0 + k > nfr:
+                                    bad = bad or f"item {i} run ({s0},{k}) outside the {nfr} frames of the block"
+                    except R.LayoutError as e:
+                        bad = f"written bytes do not parse: {e}"
+                    if bad is None:
+                        try:
+                            d, _ = specs.lib_decode(t, good["format"], data)
+                            specs.extract(d)
+                        except Exception as e:  # noqa: BLE001
+                            bad = f"the library cannot decode what it wrote: {type(e).__name__}: {e}"
+                    if bad:
+                        acc.violation("accepted-item-breaks-run-table", f"{PROP}:{R.NAMES[t]}:edge:{way}", wit, f"{desc}: accepted, then {bad}")
+                    else:
+                        acc.outcomes[f"{R.NAMES[t]}:edge:accepted-and-sound"] += 1
+                        acc.n["traces"] += 1
+    acc.sample({"edge": f"{R.NAMES[t]}: items of n+2 / n-1 / n-3 frames through every hand-over path; judged only if accepted"}, 1)
+    return acc
+
+
 def _any(shard):
     if shard[0] == "file":
         return _file_shard(shard[1])
+    if shard[0] == "edge":
+        return _edge_shard(shard[1])
     return _shard(shard)
 
 
 def run(tier):
     _shard.tier = tier
-    acc = core.pmap(__name__, "_any", [("file", t) for t in gen.RLE_TYPES] + shape.shards(gen.RLE_TYPES, 4))
+    acc = core.pmap(__name__, "_any", [("file", t) for t in gen.RLE_TYPES] + [("edge", t) for t in gen.RLE_TYPES] + shape.shards(gen.RLE_TYPES, 4))
     acc.merge(core.pmap("mc.editwalk", "run_shard", editwalk.shards(PROP, tier)))
     return acc
 
@@ -245,6 +314,12 @@ def run(tier):
 def replay(w):
     if w.get("editwalk"):
         return editwalk.replay(w)
+    if w.get("edge"):
+        acc = _edge_shard(w["edge"][0])
+        for v in acc.violations:
+            if v["witness"] == w:
+                return core.Violation(v["clause"], v["sig"], w, v["detail"])
+        return None
     if w.get("file"):
         sp = specs.load(w["spec"])
         acc = _file_shard(sp["type"])
